@@ -77,5 +77,5 @@ Example C16_nonvacuous_complex :
 Proof.
 split; first exact: conjCK. split; first exact: conjCi.
 split; first by rewrite fmorphV rmorph_nat.
-by rewrite -mulr2n -mulr_natr mulVf // pnatr_eq0.
+by rewrite -[2%:R^-1]div1r -splitr.
 Qed.
